@@ -98,6 +98,10 @@ def sort_keys(ctx: core.Ctx, mods):
     return n
 
 
+MUTATORS = ("append", "extend", "update", "setdefault", "add", "insert", "pop", "clear", "remove", "discard", "sort", "reverse", "popitem", "appendleft",
+            "difference_update", "intersection_update", "symmetric_difference_update", "__setitem__", "__delitem__")
+
+
 def gen_pure(ctx: core.Ctx, modules=None, rule="GEN-PURE", floor=60):
     """GEN-PURE: no module-level mutable state written by functions of the given modules"""
     n = 0
@@ -110,6 +114,15 @@ def gen_pure(ctx: core.Ctx, modules=None, rule="GEN-PURE", floor=60):
                 for t in tg:
                     if isinstance(t, ast.Name):
                         module_names.add(t.id)
+        module_mutables = set()
+        for s in tree.body:
+            if isinstance(s, (ast.Assign, ast.AnnAssign)) and s.value is not None:
+                v = s.value
+                if isinstance(v, (ast.Dict, ast.List, ast.Set, ast.ListComp, ast.DictComp, ast.SetComp)) or \
+                        (isinstance(v, ast.Call) and ast.unparse(v.func).split(".")[-1] in ("dict", "list", "set", "defaultdict", "OrderedDict", "Counter", "deque")):
+                    for t in (s.targets if isinstance(s, ast.Assign) else [s.target]):
+                        if isinstance(t, ast.Name):
+                            module_mutables.add(t.id)
         for f in ast.walk(tree):
             if not isinstance(f, (ast.FunctionDef, ast.AsyncFunctionDef)):
                 continue
@@ -120,7 +133,32 @@ def gen_pure(ctx: core.Ctx, modules=None, rule="GEN-PURE", floor=60):
                 txt = ast.unparse(d)
                 if "lru_cache" in txt or txt.split("(")[0].split(".")[-1] in ("cache", "cached", "memoize"):
                     probs.append((d.lineno, f"memoising decorator @{txt}"))
-            for s in ast.walk(f):
+            # a local bound directly to a module-level container (`required = HEADER_INCLUDES`, also through `a if c else b` / `a or b`) is that
+            # container: mutating it through the local -- item store, mutator method, in-place operator -- writes the module's state.
+            # Statement order is followed (a later `required = dict(required)` ends the alias); branches are not distinguished.
+            alias = {}
+
+            def direct(v):
+                if isinstance(v, ast.Name):
+                    if v.id in alias:
+                        return alias[v.id]
+                    return v.id if v.id in module_mutables and v.id not in locals_ else None
+                if isinstance(v, ast.IfExp):
+                    return direct(v.body) or direct(v.orelse)
+                if isinstance(v, ast.BoolOp):
+                    return next((d for d in map(direct, v.values) if d), None)
+                if isinstance(v, ast.NamedExpr):
+                    return direct(v.value)
+                return None
+
+            def target_of(tgt):
+                if isinstance(tgt, ast.Name):
+                    if tgt.id in alias:
+                        return alias[tgt.id], tgt.id
+                    if tgt.id in module_names and tgt.id not in locals_:
+                        return tgt.id, None
+                return None, None
+            for s in sorted((x for x in ast.walk(f) if hasattr(x, "lineno")), key=lambda x: (x.lineno, x.col_offset)):
                 if isinstance(s, ast.Global):
                     probs.append((s.lineno, f"`global {', '.join(s.names)}`"))
                 tgt = None
@@ -128,12 +166,25 @@ def gen_pure(ctx: core.Ctx, modules=None, rule="GEN-PURE", floor=60):
                     for t in s.targets:
                         if isinstance(t, ast.Subscript):
                             tgt = t.value
+                        elif isinstance(t, ast.Name):
+                            d = direct(s.value)
+                            if d is not None:
+                                alias[t.id] = d
+                            else:
+                                alias.pop(t.id, None)
                 elif isinstance(s, ast.AugAssign) and isinstance(s.target, ast.Subscript):
                     tgt = s.target.value
-                elif isinstance(s, ast.Call) and isinstance(s.func, ast.Attribute) and s.func.attr in ("append", "extend", "update", "setdefault", "add", "insert", "pop", "clear"):
+                elif isinstance(s, ast.AugAssign) and isinstance(s.target, ast.Name) and s.target.id in alias:
+                    tgt = s.target                      # `alias |= other` / `alias += other`: in place for dict / set / list
+                elif isinstance(s, ast.Delete):
+                    for t in s.targets:
+                        if isinstance(t, ast.Subscript):
+                            tgt = t.value
+                elif isinstance(s, ast.Call) and isinstance(s.func, ast.Attribute) and s.func.attr in MUTATORS:
                     tgt = s.func.value
-                if isinstance(tgt, ast.Name) and tgt.id in module_names and tgt.id not in locals_:
-                    probs.append((s.lineno, f"writes module-level `{tgt.id}`"))
+                who, via = target_of(tgt)
+                if who is not None:
+                    probs.append((s.lineno, f"writes module-level `{who}`" + (f" through its local alias `{via}`" if via else "")))
             ctx.oblige(rule, f"{rel}:{f.name}", f"{len(probs)} module-state effect(s)", not probs, file=rel, func=f.name,
                        construct="module state:" + ";".join(p[1] for p in probs),
                        msg=f"{f.name} keeps state across generations ({'; '.join(p[1] + ' (line ' + str(p[0]) + ')' for p in probs)}): the bytes generated for a "
